@@ -5,6 +5,7 @@ mod hooks;
 mod actors;
 mod netsim;
 mod hubsim;
+mod clustersim;
 mod framework;
 mod scenario;
 mod muxscn;
